@@ -61,16 +61,16 @@ def s1 := asciiB "s1"
 -- tests by evaluation (kernel-checked, but samples, not the unbounded claim):
 -- one of two new targets never passes: the deploy fails at its timeout, no request ever reaches
 -- the new targets, the old target keeps answering, the new targets are no longer probed
-example : ((runOps [.deploy 1 s1 false [asciiB "a:80"] 2000000000 700000000,
+example : ((runOps [.deploy 1 s1 s1 false [asciiB "a:80"] 2000000000 700000000,
     .target (asciiB "c:80") .fail,
-    .deploy 2 s1 false [asciiB "b:80", asciiB "c:80"] 2000000000 700000000,
+    .deploy 2 s1 s1 false [asciiB "b:80", asciiB "c:80"] 2000000000 700000000,
     .req 1 s1 [] false, .advance 2500000000, .req 2 s1 [] false, .advance 3000000000]).events.filter
       fun e => e.startsWith "done" || e.startsWith "cmd" || e.startsWith "got") =
     ["cmd c1 res=ok", "got a:80 r1", "done r1 status=200 by=a:80", "cmd c2 res=unhealthy",
      "got a:80 r2", "done r2 status=200 by=a:80"] := by decide +kernel
 
 -- success only after k failures
-example : ((runOps [.target (asciiB "a:80") .fail, .deploy 1 s1 false [asciiB "a:80"] 5000000000 700000000,
+example : ((runOps [.target (asciiB "a:80") .fail, .deploy 1 s1 s1 false [asciiB "a:80"] 5000000000 700000000,
     .req 1 s1 [] false, .advance 1500000000, .target (asciiB "a:80") .ok, .req 2 s1 [] false,
     .advance 1000000000, .req 3 s1 [] false]).events.filter
       fun e => e.startsWith "done" || e.startsWith "cmd") =
